@@ -429,5 +429,433 @@ pub proof fn thm_detect_modes_report<C: Ciphersuite>(res: Result<Signature<C>, E
         agg_culprits::<C>(sp, shares, pk).len() > 0 && !first ==> (res->Err_0->culprits)@ == agg_culprits::<C>(sp, shares, pk),
 {}
 
+// ---------------------------------------------------------------------------------------------------
+// T2 (C01): the sum of the honest shares of >= t signers is a valid signature under the group key
+// partial sums  sum_{j<k} g(keys[j])
+pub open spec fn psum<C: Ciphersuite>(keys: Seq<Identifier<C>>, g: spec_fn(Identifier<C>) -> Scalar<C>, k: int) -> Scalar<C> { id_sum::<C>(keys.take(k), g) }
+
+//@serves C01
+pub proof fn lemma_psum_zero<C: Ciphersuite>(keys: Seq<Identifier<C>>, g: spec_fn(Identifier<C>) -> Scalar<C>)
+    ensures psum::<C>(keys, g, 0) == s0::<C>()
+{ assert(keys.take(0).len() == 0); }
+
+//@serves C01
+pub proof fn lemma_psum_step<C: Ciphersuite>(keys: Seq<Identifier<C>>, g: spec_fn(Identifier<C>) -> Scalar<C>, k: int)
+    requires 0 <= k < keys.len()
+    ensures psum::<C>(keys, g, k + 1) == sadd::<C>(psum::<C>(keys, g, k), g(keys[k]))
+{
+    assert(keys.take(k + 1).drop_last() =~= keys.take(k));
+    assert(keys.take(k + 1).last() == keys[k]);
+}
+
+// the three summands of an honest share as functions of the identifier
+pub open spec fn nonce_d<C: Ciphersuite>(nonce: spec_fn(Identifier<C>) -> (Scalar<C>, Scalar<C>)) -> spec_fn(Identifier<C>) -> Scalar<C>
+{ |id: Identifier<C>| nonce(id).0 }
+pub open spec fn nonce_er<C: Ciphersuite>(sp: SigningPackage<C>, vk: Element<C>, nonce: spec_fn(Identifier<C>) -> (Scalar<C>, Scalar<C>)) -> spec_fn(Identifier<C>) -> Scalar<C>
+{ |id: Identifier<C>| smul::<C>(nonce(id).1, sp_rho::<C>(sp, vk, id)) }
+pub open spec fn lam_share<C: Ciphersuite>(sp: SigningPackage<C>, a: Seq<Scalar<C>>) -> spec_fn(Identifier<C>) -> Scalar<C>
+{ |id: Identifier<C>| smul::<C>(sp_lambda::<C>(sp, id), poly::<AL<C>>(a, id.0.0)) }
+
+// (A + B) + (a + b) == (A + a) + (B + b)
+//@serves C01
+pub proof fn lemma_sadd_swap22<C: Ciphersuite>(A: Scalar<C>, B: Scalar<C>, a: Scalar<C>, b: Scalar<C>)
+    ensures sadd::<C>(sadd::<C>(A, B), sadd::<C>(a, b)) == sadd::<C>(sadd::<C>(A, a), sadd::<C>(B, b))
+{
+    FF::<C>::ax_add_assoc(A, B, sadd::<C>(a, b));
+    FF::<C>::ax_add_assoc(B, a, b);
+    FF::<C>::ax_add_comm(B, a);
+    FF::<C>::ax_add_assoc(a, B, b);
+    FF::<C>::ax_add_assoc(A, a, sadd::<C>(B, b));
+}
+
+// the k-th entry of the commitment list is (keys[k], map[keys[k]]) and keys[k] is a participant
+//@serves C01
+pub proof fn lemma_sp_item<C: Ciphersuite>(sp: SigningPackage<C>, k: int)
+    requires sp.signing_commitments@.dom().finite(), 0 <= k < sorted_seq(sp.signing_commitments@.dom()).len()
+    ensures sp.signing_commitments@.contains_key(sorted_seq(sp.signing_commitments@.dom())[k]),
+        sp_items::<C>(sp).len() == sorted_seq(sp.signing_commitments@.dom()).len(),
+        sp_items::<C>(sp)[k] == (sorted_seq(sp.signing_commitments@.dom())[k], sp.signing_commitments@[sorted_seq(sp.signing_commitments@.dom())[k]]),
+{
+    let keys = sorted_seq(sp.signing_commitments@.dom());
+    lemma_sorted_exists::<C>(sp.signing_commitments@.dom());
+    assert(keys.contains(keys[k]));
+    assert(keys.to_set().contains(keys[k]));
+}
+
+// sum of the hiding commitments = G * (sum of the hiding nonces)
+//@serves C01
+pub proof fn lemma_gc_hiding_honest<C: Ciphersuite>(sp: SigningPackage<C>, nonce: spec_fn(Identifier<C>) -> (Scalar<C>, Scalar<C>), k: int)
+    requires sp.signing_commitments@.dom().finite(), honest_commitments::<C>(sp, nonce), 0 <= k <= sorted_seq(sp.signing_commitments@.dom()).len()
+    ensures gc_hiding::<C>(sp_items::<C>(sp), k) == gmul::<C>(psum::<C>(sorted_seq(sp.signing_commitments@.dom()), nonce_d::<C>(nonce), k))
+    decreases k
+{
+    let keys = sorted_seq(sp.signing_commitments@.dom()); let g = eg::<C>();
+    if k == 0 {
+        lemma_psum_zero::<C>(keys, nonce_d::<C>(nonce));
+        lemma_smul_zero::<C>(g);
+    } else {
+        lemma_gc_hiding_honest::<C>(sp, nonce, k - 1);
+        lemma_sp_item::<C>(sp, k - 1);
+        lemma_psum_step::<C>(keys, nonce_d::<C>(nonce), k - 1);
+        GG::<C>::ax_smul_add(g, psum::<C>(keys, nonce_d::<C>(nonce), k - 1), nonce(keys[k - 1]).0);
+    }
+}
+
+// sum of the binding commitments times their binding factors = G * (sum of e_i * rho_i)
+//@serves C01
+pub proof fn lemma_gc_binding_honest<C: Ciphersuite>(sp: SigningPackage<C>, vk: Element<C>, nonce: spec_fn(Identifier<C>) -> (Scalar<C>, Scalar<C>), k: int)
+    requires sp.signing_commitments@.dom().finite(), honest_commitments::<C>(sp, nonce), 0 <= k <= sorted_seq(sp.signing_commitments@.dom()).len()
+    ensures gc_binding::<C>(sp_items::<C>(sp), sp_rho_map::<C>(sp, vk), k) == gmul::<C>(psum::<C>(sorted_seq(sp.signing_commitments@.dom()), nonce_er::<C>(sp, vk, nonce), k))
+    decreases k
+{
+    let keys = sorted_seq(sp.signing_commitments@.dom()); let g = eg::<C>();
+    if k == 0 {
+        lemma_psum_zero::<C>(keys, nonce_er::<C>(sp, vk, nonce));
+        lemma_smul_zero::<C>(g);
+    } else {
+        lemma_gc_binding_honest::<C>(sp, vk, nonce, k - 1);
+        lemma_sp_item::<C>(sp, k - 1);
+        lemma_psum_step::<C>(keys, nonce_er::<C>(sp, vk, nonce), k - 1);
+        let id = keys[k - 1];
+        assert(sp_rho_map::<C>(sp, vk)[id].0 == sp_rho::<C>(sp, vk, id));
+        GG::<C>::ax_smul_mul(g, nonce(id).1, sp_rho::<C>(sp, vk, id));
+        GG::<C>::ax_smul_add(g, psum::<C>(keys, nonce_er::<C>(sp, vk, nonce), k - 1), smul::<C>(nonce(id).1, sp_rho::<C>(sp, vk, id)));
+    }
+}
+
+// the group commitment of an honest session is G * (sum d_i + sum e_i rho_i)
+//@serves C01
+pub proof fn lemma_R_honest<C: Ciphersuite>(sp: SigningPackage<C>, vk: Element<C>, nonce: spec_fn(Identifier<C>) -> (Scalar<C>, Scalar<C>))
+    requires sp.signing_commitments@.dom().finite(), honest_commitments::<C>(sp, nonce)
+    ensures ({ let keys = sorted_seq(sp.signing_commitments@.dom()); let n = keys.len() as int;
+        sp_R::<C>(sp, vk) == gmul::<C>(sadd::<C>(psum::<C>(keys, nonce_d::<C>(nonce), n), psum::<C>(keys, nonce_er::<C>(sp, vk, nonce), n))) })
+{
+    let keys = sorted_seq(sp.signing_commitments@.dom()); let n = keys.len() as int;
+    assert(sp_items::<C>(sp).len() == n);
+    lemma_gc_hiding_honest::<C>(sp, nonce, n);
+    lemma_gc_binding_honest::<C>(sp, vk, nonce, n);
+    GG::<C>::ax_smul_add(eg::<C>(), psum::<C>(keys, nonce_d::<C>(nonce), n), psum::<C>(keys, nonce_er::<C>(sp, vk, nonce), n));
+}
+
+// the sum of the honest shares:  z = (sum d_i + sum e_i rho_i) + (sum lambda_i s_i) * c
+//@serves C01
+pub proof fn lemma_z_sum_honest<C: Ciphersuite>(sp: SigningPackage<C>, vk: Element<C>, a: Seq<Scalar<C>>, nonce: spec_fn(Identifier<C>) -> (Scalar<C>, Scalar<C>), shares: ShareMap<C>, k: int)
+    requires sp.signing_commitments@.dom().finite(), 0 <= k <= sorted_seq(sp.signing_commitments@.dom()).len(),
+        forall|id: Identifier<C>| #[trigger] sp.signing_commitments@.contains_key(id) ==> shares[id].share.0 == honest_share::<C>(sp, vk, a, nonce, id),
+    ensures ({ let keys = sorted_seq(sp.signing_commitments@.dom());
+        spec_z_sum::<C>(keys, shares, k) == sadd::<C>(sadd::<C>(psum::<C>(keys, nonce_d::<C>(nonce), k), psum::<C>(keys, nonce_er::<C>(sp, vk, nonce), k)),
+            smul::<C>(psum::<C>(keys, lam_share::<C>(sp, a), k), sp_c::<C>(sp, vk))) })
+    decreases k
+{
+    let keys = sorted_seq(sp.signing_commitments@.dom()); let c = sp_c::<C>(sp, vk);
+    let gd = nonce_d::<C>(nonce); let ge = nonce_er::<C>(sp, vk, nonce); let gl = lam_share::<C>(sp, a);
+    if k == 0 {
+        lemma_psum_zero::<C>(keys, gd); lemma_psum_zero::<C>(keys, ge); lemma_psum_zero::<C>(keys, gl);
+        lemma_mul_zero::<AL<C>>(c);
+        FF::<C>::ax_add_zero(s0::<C>());
+    } else {
+        lemma_z_sum_honest::<C>(sp, vk, a, nonce, shares, k - 1);
+        lemma_sp_item::<C>(sp, k - 1);
+        lemma_psum_step::<C>(keys, gd, k - 1); lemma_psum_step::<C>(keys, ge, k - 1); lemma_psum_step::<C>(keys, gl, k - 1);
+        let id = keys[k - 1];
+        let D = psum::<C>(keys, gd, k - 1); let E = psum::<C>(keys, ge, k - 1); let L = psum::<C>(keys, gl, k - 1);
+        let d = gd(id); let er = ge(id); let ls = gl(id);
+        assert(shares[id].share.0 == sadd::<C>(sadd::<C>(d, er), smul::<C>(ls, c)));
+        // ((D + E) + L c) + ((d + er) + ls c) == ((D + E) + (d + er)) + (L c + ls c) == ((D + d) + (E + er)) + (L + ls) c
+        lemma_sadd_swap22::<C>(sadd::<C>(D, E), smul::<C>(L, c), sadd::<C>(d, er), smul::<C>(ls, c));
+        lemma_sadd_swap22::<C>(D, E, d, er);
+        FF::<C>::ax_mul_comm(sadd::<C>(L, ls), c); FF::<C>::ax_distrib(c, L, ls); FF::<C>::ax_mul_comm(c, L); FF::<C>::ax_mul_comm(c, ls);
+    }
+}
+
+// sum_i lambda_i * a(i) == a(0) == a[0]  for at least |a| participants  (Lagrange interpolation at 0 over the participants of the package)
+//@serves C01 C03
+pub proof fn lemma_lambda_sum<C: Ciphersuite>(sp: SigningPackage<C>, a: Seq<Scalar<C>>)
+    requires sp.signing_commitments@.dom().finite(), 1 <= a.len() <= sp.signing_commitments@.dom().len()
+    ensures psum::<C>(sorted_seq(sp.signing_commitments@.dom()), lam_share::<C>(sp, a), sorted_seq(sp.signing_commitments@.dom()).len() as int) == a[0],
+        sorted_seq(sp.signing_commitments@.dom()).len() == sp.signing_commitments@.dom().len()
+{
+    let keys = sorted_seq(sp.signing_commitments@.dom());
+    lemma_sorted_exists::<C>(sp.signing_commitments@.dom());
+    keys.unique_seq_to_set();
+    let gl = lam_share::<C>(sp, a); let lt0 = lag_term::<C>(keys, a, s0::<C>());
+    assert forall|k: int| 0 <= k < keys.len() implies gl(#[trigger] keys[k]) == lt0(keys[k]) by {
+        let i = keys[k];
+        lemma_lag0::<AL<C>>(scalars::<C>(keys), i.0.0);
+        FF::<C>::ax_mul_comm(sp_lambda::<C>(sp, i), poly::<AL<C>>(a, i.0.0));
+    }
+    lemma_id_sum_ext::<C>(keys, gl, lt0);
+    lemma_interpolate_at::<C>(keys, a, s0::<C>());
+    lemma_poly_at_zero::<C>(a);
+    assert(keys.take(keys.len() as int) =~= keys);
+}
+
+// (R + X) - X - R == 0: a signature satisfying the Schnorr equation  z G == R + c * PK  passes (cofactored) verification
+//@serves C01
+pub proof fn lemma_schnorr_equation_valid<C: Ciphersuite>(vkey: VerifyingKey<C>, c: Scalar<C>, sig: Signature<C>)
+    requires gmul::<C>(sig.z) == eadd::<C>(sig.R, emul::<C>(vkey.element.0, c))
+    ensures spec_sig_valid::<C>(vkey, Challenge::<C>(c), sig), spec_delta::<C>(vkey, Challenge::<C>(c), sig) == e0::<C>()
+{
+    let x = emul::<C>(vkey.element.0, c);
+    GG::<C>::ax_eadd_assoc(sig.R, x, GG::<C>::e_neg(x));
+    GG::<C>::ax_eadd_neg(x);
+    GG::<C>::ax_eadd_id(sig.R);
+    GG::<C>::ax_eadd_neg(sig.R);
+    lemma_smul_id::<C>(GG::<C>::s_cofactor());
+}
+
+// the core equation:  G * z == R + c * PK
+//@serves C01
+pub proof fn lemma_honest_sum_equation<C: Ciphersuite>(sp: SigningPackage<C>, vk: Element<C>, a: Seq<Scalar<C>>, nonce: spec_fn(Identifier<C>) -> (Scalar<C>, Scalar<C>), shares: ShareMap<C>)
+    requires sp.signing_commitments@.dom().finite(), 1 <= a.len() <= sp.signing_commitments@.dom().len(), vk == gmul::<C>(a[0]),
+        honest_commitments::<C>(sp, nonce), shares.dom() == sp.signing_commitments@.dom(),
+        forall|id: Identifier<C>| #[trigger] sp.signing_commitments@.contains_key(id) ==> shares[id].share.0 == honest_share::<C>(sp, vk, a, nonce, id),
+    ensures gmul::<C>(agg_sig::<C>(sp, shares, vk).z) == eadd::<C>(sp_R::<C>(sp, vk), emul::<C>(vk, sp_c::<C>(sp, vk))),
+        agg_sig::<C>(sp, shares, vk).R == sp_R::<C>(sp, vk)
+{
+    let keys = sorted_seq(sp.signing_commitments@.dom()); let n = keys.len() as int; let c = sp_c::<C>(sp, vk); let g = eg::<C>();
+    let D = psum::<C>(keys, nonce_d::<C>(nonce), n); let E = psum::<C>(keys, nonce_er::<C>(sp, vk, nonce), n);
+    lemma_lambda_sum::<C>(sp, a);
+    lemma_z_sum_honest::<C>(sp, vk, a, nonce, shares, n);
+    lemma_R_honest::<C>(sp, vk, nonce);
+    assert(agg_sig::<C>(sp, shares, vk).z == sadd::<C>(sadd::<C>(D, E), smul::<C>(a[0], c)));
+    GG::<C>::ax_smul_add(g, sadd::<C>(D, E), smul::<C>(a[0], c));
+    GG::<C>::ax_smul_mul(g, a[0], c);
+}
+
+// T2
+//@serves C01
+pub proof fn thm_honest_sum_verifies<C: Ciphersuite>(sp: SigningPackage<C>, vkey: VerifyingKey<C>, a: Seq<Scalar<C>>, ys: Map<Identifier<C>, VerifyingShare<C>>,
+        nonce: spec_fn(Identifier<C>) -> (Scalar<C>, Scalar<C>), shares: ShareMap<C>)
+    requires sp.signing_commitments@.dom().finite(),
+        honest_keys::<C>(a, vkey.element.0, ys, sp.signing_commitments@.dom()), a.len() <= sp.signing_commitments@.dom().len(),
+        honest_commitments::<C>(sp, nonce), shares.dom() == sp.signing_commitments@.dom(),
+        forall|id: Identifier<C>| #[trigger] sp.signing_commitments@.contains_key(id) ==> shares[id].share.0 == honest_share::<C>(sp, vkey.element.0, a, nonce, id),
+        vkey.element.0 != e0::<C>(), sp_R::<C>(sp, vkey.element.0) != e0::<C>(),
+    ensures spec_verify::<C>(vkey, sp.message@, agg_sig::<C>(sp, shares, vkey.element.0)) == Ok::<(), Error<C>>(()),
+        vkey == (VerifyingKey::<C> { element: SerializableElement(vkey.element.0) }),
+{
+    let vk = vkey.element.0;
+    lemma_honest_sum_equation::<C>(sp, vk, a, nonce, shares);
+    lemma_schnorr_equation_valid::<C>(vkey, sp_c::<C>(sp, vk), agg_sig::<C>(sp, shares, vk));
+}
+
+// the coordinator's guards pass in the honest setup
+//@serves C01
+pub proof fn lemma_honest_guard_none<C: Ciphersuite>(sp: SigningPackage<C>, shares: ShareMap<C>, pk: PublicKeyPackage<C>, detect: bool)
+    requires shares.dom() == sp.signing_commitments@.dom(),
+        pk.min_signers is Some ==> pk.min_signers->Some_0 <= shares.dom().len(),
+        forall|id: Identifier<C>| #[trigger] sp.signing_commitments@.contains_key(id) ==> pk.verifying_shares@.contains_key(id),
+        pk.verifying_key.element.0 != e0::<C>(), !items_have_identity::<C>(sp_items::<C>(sp)),
+    ensures agg_guard_err::<C>(sp, shares, pk, detect) is None
+{}
+
+// commitments to non-zero nonces are not the identity; a non-zero group secret gives a non-identity group key
+//@serves C01
+pub proof fn lemma_honest_no_identity<C: Ciphersuite>(sp: SigningPackage<C>, nonce: spec_fn(Identifier<C>) -> (Scalar<C>, Scalar<C>))
+    requires sp.signing_commitments@.dom().finite(), honest_commitments::<C>(sp, nonce),
+        forall|id: Identifier<C>| #[trigger] sp.signing_commitments@.contains_key(id) ==> nonce(id).0 != s0::<C>() && nonce(id).1 != s0::<C>(),
+    ensures !items_have_identity::<C>(sp_items::<C>(sp))
+{
+    lemma_items_identity_iff::<C>(sp);
+    GG::<C>::ax_gen_ne_id();
+    assert forall|id: Identifier<C>| #[trigger] sp.signing_commitments@.contains_key(id) implies !sc_has_identity::<C>(sp.signing_commitments@[id]) by {
+        GG::<C>::ax_smul_cancel(eg::<C>(), nonce(id).0);
+        GG::<C>::ax_smul_cancel(eg::<C>(), nonce(id).1);
+    }
+}
+//@serves C01
+pub proof fn lemma_nonzero_key_not_identity<C: Ciphersuite>(s: Scalar<C>)
+    requires s != s0::<C>()
+    ensures gmul::<C>(s) != e0::<C>()
+{ GG::<C>::ax_gen_ne_id(); GG::<C>::ax_smul_cancel(eg::<C>(), s); }
+
+// the share `sign` returns for an honest signer is `honest_share`
+//@serves C01
+pub proof fn thm_sign_gives_honest_share<C: Ciphersuite>(sp: SigningPackage<C>, sn: crate::round1::SigningNonces<C>, kp: KeyPackage<C>, a: Seq<Scalar<C>>,
+        nonce: spec_fn(Identifier<C>) -> (Scalar<C>, Scalar<C>))
+    requires spec_sign::<C>(sp, sn, kp) is Ok, kp.signing_share.0.0 == poly::<AL<C>>(a, kp.identifier.0.0),
+        nonce(kp.identifier) == (sn.hiding.0.0, sn.binding.0.0),
+    ensures (spec_sign::<C>(sp, sn, kp)->Ok_0).share.0 == honest_share::<C>(sp, kp.verifying_key.element.0, a, nonce, kp.identifier),
+        (spec_sign::<C>(sp, sn, kp)->Ok_0).header == default_header::<C>(),
+{}
+
+// `sign` succeeds for a participant of a sound session (the complement of the refusals T5a/T6a)
+//@serves C01
+pub proof fn thm_sign_succeeds<C: Ciphersuite>(sp: SigningPackage<C>, sn: crate::round1::SigningNonces<C>, kp: KeyPackage<C>)
+    requires sp.signing_commitments@.dom().len() >= kp.min_signers, sp.signing_commitments@.contains_key(kp.identifier),
+        sn.commitments == sp.signing_commitments@[kp.identifier], kp.verifying_key.element.0 != e0::<C>(), !items_have_identity::<C>(sp_items::<C>(sp)),
+        sp_R::<C>(sp, kp.verifying_key.element.0) != e0::<C>(),
+    ensures spec_sign::<C>(sp, sn, kp) is Ok
+{}
+
+// T3 (C01): in the honest setup aggregation returns the aggregate, it verifies, and every share passes its check
+//@serves C01
+pub proof fn thm_honest_aggregate_succeeds<C: Ciphersuite>(res: Result<Signature<C>, Error<C>>, sp: SigningPackage<C>, shares: ShareMap<C>, pk: PublicKeyPackage<C>,
+        detect: bool, first: bool, a: Seq<Scalar<C>>, nonce: spec_fn(Identifier<C>) -> (Scalar<C>, Scalar<C>))
+    requires sp.signing_commitments@.dom().finite(),
+        honest_keys::<C>(a, pk.verifying_key.element.0, pk.verifying_shares@, sp.signing_commitments@.dom()), a.len() <= sp.signing_commitments@.dom().len(),
+        honest_commitments::<C>(sp, nonce), shares.dom() == sp.signing_commitments@.dom(),
+        forall|id: Identifier<C>| #[trigger] sp.signing_commitments@.contains_key(id) ==> shares[id].share.0 == honest_share::<C>(sp, pk.verifying_key.element.0, a, nonce, id),
+        sp_R::<C>(sp, pk.verifying_key.element.0) != e0::<C>(),
+        agg_guard_err::<C>(sp, shares, pk, detect) is None,
+        agg_result_is::<C>(res, sp, shares, pk, detect, first),
+    ensures
+        res == Ok::<Signature<C>, Error<C>>(agg_sig::<C>(sp, shares, pk.verifying_key.element.0)),
+        spec_verify::<C>(pk.verifying_key, sp.message@, res->Ok_0) == Ok::<(), Error<C>>(()),
+        agg_culprits::<C>(sp, shares, pk).len() == 0,
+        forall|id: Identifier<C>| #[trigger] sp.signing_commitments@.contains_key(id) ==>
+            sp_share_ok::<C>(sp, sp_rho_map::<C>(sp, pk.verifying_key.element.0), id, shares[id].share.0, pk.verifying_shares@[id].0.0, sp_c::<C>(sp, pk.verifying_key.element.0)),
+{
+    let vk = pk.verifying_key.element.0; let ys = pk.verifying_shares@;
+    thm_honest_sum_verifies::<C>(sp, pk.verifying_key, a, ys, nonce, shares);
+    assert forall|id: Identifier<C>| #[trigger] sp.signing_commitments@.contains_key(id) implies
+        sp_share_ok::<C>(sp, sp_rho_map::<C>(sp, vk), id, shares[id].share.0, ys[id].0.0, sp_c::<C>(sp, vk)) by {
+        thm_share_ok_iff_honest::<C>(sp, vk, a, ys, nonce, id, shares[id].share.0);
+    }
+    let keys = sorted_seq(shares.dom());
+    lemma_sorted_exists::<C>(shares.dom());
+    keys.unique_seq_to_set();
+    assert forall|k: int| 0 <= k < keys.len() implies sp_share_ok::<C>(sp, sp_rho_map::<C>(sp, vk), #[trigger] keys[k], shares[keys[k]].share.0, ys[keys[k]].0.0, sp_c::<C>(sp, vk)) by {
+        assert(keys.contains(keys[k])); assert(keys.to_set().contains(keys[k]));
+        assert(sp.signing_commitments@.contains_key(keys[k]));
+    }
+    lemma_culprits_empty_prefix::<C>(keys, sp, sp_rho_map::<C>(sp, vk), shares, ys, sp_c::<C>(sp, vk), keys.len() as int);
+}
+
+// ---------------------------------------------------------------------------------------------------
+// T4b-d (C04): who is named
+// T4b: with honest keys and honest commitments (NO assumption on the shares) the participants whose share fails the check are
+// exactly those whose submitted share differs from the honest one
+//@serves C04
+pub proof fn thm_culprits_exact<C: Ciphersuite>(sp: SigningPackage<C>, shares: ShareMap<C>, pk: PublicKeyPackage<C>, a: Seq<Scalar<C>>, nonce: spec_fn(Identifier<C>) -> (Scalar<C>, Scalar<C>))
+    requires sp.signing_commitments@.dom().finite(),
+        honest_keys::<C>(a, pk.verifying_key.element.0, pk.verifying_shares@, sp.signing_commitments@.dom()),
+        honest_commitments::<C>(sp, nonce), shares.dom() == sp.signing_commitments@.dom(),
+    ensures forall|id: Identifier<C>| #[trigger] agg_culprits::<C>(sp, shares, pk).contains(id) <==>
+        (sp.signing_commitments@.contains_key(id) && shares[id].share.0 != honest_share::<C>(sp, pk.verifying_key.element.0, a, nonce, id))
+{
+    let vk = pk.verifying_key.element.0; let ys = pk.verifying_shares@; let bf = sp_rho_map::<C>(sp, vk); let c = sp_c::<C>(sp, vk);
+    let keys = sorted_seq(shares.dom()); let n = shares.dom().len() as int;
+    lemma_sorted_exists::<C>(shares.dom());
+    keys.unique_seq_to_set();
+    let cu = agg_culprits::<C>(sp, shares, pk);
+    lemma_culprits_members::<C>(keys, sp, bf, shares, ys, c, n);
+    assert forall|id: Identifier<C>| #[trigger] cu.contains(id) <==> (sp.signing_commitments@.contains_key(id) && shares[id].share.0 != honest_share::<C>(sp, vk, a, nonce, id)) by {
+        if sp.signing_commitments@.contains_key(id) {
+            thm_share_ok_iff_honest::<C>(sp, vk, a, ys, nonce, id, shares[id].share.0);
+            assert(keys.to_set().contains(id));
+            let k = choose|k: int| 0 <= k < keys.len() && keys[k] == id;
+            assert(in_prefix::<C>(keys, n, id));
+        }
+        if in_prefix::<C>(keys, n, id) {
+            let j = choose|j: int| 0 <= j < n && #[trigger] keys[j] == id;
+            assert(keys.contains(id)); assert(keys.to_set().contains(id));
+        }
+    }
+}
+
+// an honest share is never named (in any mode: both modes report a sub-list of agg_culprits)
+//@serves C04
+pub proof fn thm_honest_share_never_named<C: Ciphersuite>(sp: SigningPackage<C>, shares: ShareMap<C>, pk: PublicKeyPackage<C>, a: Seq<Scalar<C>>, nonce: spec_fn(Identifier<C>) -> (Scalar<C>, Scalar<C>), id: Identifier<C>)
+    requires sp.signing_commitments@.dom().finite(),
+        honest_keys::<C>(a, pk.verifying_key.element.0, pk.verifying_shares@, sp.signing_commitments@.dom()),
+        honest_commitments::<C>(sp, nonce), shares.dom() == sp.signing_commitments@.dom(),
+        shares[id].share.0 == honest_share::<C>(sp, pk.verifying_key.element.0, a, nonce, id),
+    ensures !agg_culprits::<C>(sp, shares, pk).contains(id),
+        agg_culprits::<C>(sp, shares, pk).len() > 0 ==> agg_culprits::<C>(sp, shares, pk)[0] != id,
+{
+    thm_culprits_exact::<C>(sp, shares, pk, a, nonce);
+    let cu = agg_culprits::<C>(sp, shares, pk);
+    if cu.len() > 0 { assert(cu.contains(cu[0])); }
+}
+
+// T4c in the honest setup: the participant named in first-cheater mode is the lowest-identifier participant whose share differs from the honest one
+//@serves C04
+pub proof fn thm_first_cheater_is_lowest_dishonest<C: Ciphersuite>(sp: SigningPackage<C>, shares: ShareMap<C>, pk: PublicKeyPackage<C>, a: Seq<Scalar<C>>, nonce: spec_fn(Identifier<C>) -> (Scalar<C>, Scalar<C>))
+    requires sp.signing_commitments@.dom().finite(),
+        honest_keys::<C>(a, pk.verifying_key.element.0, pk.verifying_shares@, sp.signing_commitments@.dom()),
+        honest_commitments::<C>(sp, nonce), shares.dom() == sp.signing_commitments@.dom(),
+        agg_culprits::<C>(sp, shares, pk).len() > 0,
+    ensures ({ let first = agg_culprits::<C>(sp, shares, pk)[0]; let vk = pk.verifying_key.element.0;
+        &&& sp.signing_commitments@.contains_key(first)
+        &&& shares[first].share.0 != honest_share::<C>(sp, vk, a, nonce, first)
+        &&& forall|id: Identifier<C>| #[trigger] sp.signing_commitments@.contains_key(id) && shares[id].share.0 != honest_share::<C>(sp, vk, a, nonce, id) ==> id == first || lt(first, id)
+    })
+{
+    let vk = pk.verifying_key.element.0; let ys = pk.verifying_shares@;
+    let cu = agg_culprits::<C>(sp, shares, pk); let first = cu[0];
+    thm_culprits_exact::<C>(sp, shares, pk, a, nonce);
+    thm_first_culprit_lowest::<C>(sp, shares, pk);
+    assert(cu.contains(first));
+    assert forall|id: Identifier<C>| #[trigger] sp.signing_commitments@.contains_key(id) && shares[id].share.0 != honest_share::<C>(sp, vk, a, nonce, id) implies id == first || lt(first, id) by {
+        thm_share_ok_iff_honest::<C>(sp, vk, a, ys, nonce, id, shares[id].share.0);
+        assert(shares.contains_key(id));
+    }
+}
+
+// T4d: if the aggregate of the submitted shares is not a valid signature, somebody is named (detection cannot come up empty)
+//@serves C04
+pub proof fn thm_invalid_sum_has_culprit<C: Ciphersuite>(sp: SigningPackage<C>, shares: ShareMap<C>, pk: PublicKeyPackage<C>, a: Seq<Scalar<C>>, nonce: spec_fn(Identifier<C>) -> (Scalar<C>, Scalar<C>))
+    requires sp.signing_commitments@.dom().finite(),
+        honest_keys::<C>(a, pk.verifying_key.element.0, pk.verifying_shares@, sp.signing_commitments@.dom()), a.len() <= sp.signing_commitments@.dom().len(),
+        honest_commitments::<C>(sp, nonce), shares.dom() == sp.signing_commitments@.dom(),
+        pk.verifying_key.element.0 != e0::<C>(), sp_R::<C>(sp, pk.verifying_key.element.0) != e0::<C>(),
+        spec_verify::<C>(pk.verifying_key, sp.message@, agg_sig::<C>(sp, shares, pk.verifying_key.element.0)) is Err,
+    ensures agg_culprits::<C>(sp, shares, pk).len() > 0
+{
+    let cu = agg_culprits::<C>(sp, shares, pk);
+    if cu.len() == 0 {
+        thm_culprits_exact::<C>(sp, shares, pk, a, nonce);
+        assert forall|id: Identifier<C>| #[trigger] sp.signing_commitments@.contains_key(id) implies shares[id].share.0 == honest_share::<C>(sp, pk.verifying_key.element.0, a, nonce, id) by {
+            if shares[id].share.0 != honest_share::<C>(sp, pk.verifying_key.element.0, a, nonce, id) {
+                assert(cu.contains(id));
+                let i = choose|i: int| 0 <= i < cu.len() && cu[i] == id;
+            }
+        }
+        thm_honest_sum_verifies::<C>(sp, pk.verifying_key, a, pk.verifying_shares@, nonce, shares);
+    }
+}
+
+// C04 put together for the detecting modes: honest keys, honest commitments, >= t participants, arbitrary shares.  If aggregation fails
+// then it names somebody, everybody it names submitted a share different from the honest one, first-cheater mode names the lowest
+// such identifier and all-cheaters mode names exactly the set of them.
+//@serves C04
+pub proof fn thm_detection_exact<C: Ciphersuite>(res: Result<Signature<C>, Error<C>>, sp: SigningPackage<C>, shares: ShareMap<C>, pk: PublicKeyPackage<C>, first: bool,
+        a: Seq<Scalar<C>>, nonce: spec_fn(Identifier<C>) -> (Scalar<C>, Scalar<C>))
+    requires sp.signing_commitments@.dom().finite(),
+        honest_keys::<C>(a, pk.verifying_key.element.0, pk.verifying_shares@, sp.signing_commitments@.dom()), a.len() <= sp.signing_commitments@.dom().len(),
+        honest_commitments::<C>(sp, nonce), shares.dom() == sp.signing_commitments@.dom(),
+        sp_R::<C>(sp, pk.verifying_key.element.0) != e0::<C>(),
+        agg_guard_err::<C>(sp, shares, pk, true) is None,
+        agg_result_is::<C>(res, sp, shares, pk, true, first), res is Err,
+    ensures ({ let vk = pk.verifying_key.element.0;
+        &&& res->Err_0 is InvalidSignatureShare
+        &&& (res->Err_0->culprits)@.len() > 0
+        &&& forall|id: Identifier<C>| #[trigger] (res->Err_0->culprits)@.contains(id) ==> sp.signing_commitments@.contains_key(id) && shares[id].share.0 != honest_share::<C>(sp, vk, a, nonce, id)
+        &&& !first ==> forall|id: Identifier<C>| #[trigger] (res->Err_0->culprits)@.contains(id) <==> (sp.signing_commitments@.contains_key(id) && shares[id].share.0 != honest_share::<C>(sp, vk, a, nonce, id))
+        &&& first ==> (res->Err_0->culprits)@.len() == 1 && forall|id: Identifier<C>| #[trigger] sp.signing_commitments@.contains_key(id) && shares[id].share.0 != honest_share::<C>(sp, vk, a, nonce, id)
+                ==> id == (res->Err_0->culprits)@[0] || lt((res->Err_0->culprits)@[0], id)
+    })
+{
+    let vk = pk.verifying_key.element.0;
+    let cu = agg_culprits::<C>(sp, shares, pk);
+    thm_invalid_sum_has_culprit::<C>(sp, shares, pk, a, nonce);
+    thm_culprits_exact::<C>(sp, shares, pk, a, nonce);
+    thm_first_cheater_is_lowest_dishonest::<C>(sp, shares, pk, a, nonce);
+    let named = (res->Err_0->culprits)@;
+    if first {
+        assert(named == seq![cu[0]]);
+        assert(named[0] == cu[0]);
+        assert forall|id: Identifier<C>| #[trigger] named.contains(id) implies sp.signing_commitments@.contains_key(id) && shares[id].share.0 != honest_share::<C>(sp, vk, a, nonce, id) by {
+            let i = choose|i: int| 0 <= i < named.len() && named[i] == id;
+            assert(id == cu[0]);
+            assert(cu.contains(cu[0]));
+        }
+    } else {
+        assert(named == cu);
+    }
+}
+
 } // verus!
 }
